@@ -18,7 +18,9 @@ import numpy as np
 
 from vlib import common
 from harness import screens as S
-from harness.c02 import NAN_BITS, first_diff, observables, show_stage, unobserved_counts
+from harness.c02 import (LAYOUTS, NAN_BITS, attrs_snapshot, build_layout, first_diff, show_stage, unobserved_counts,
+                         whitespace_rename)
+from harness.c02 import observables as _observables
 
 common.use_repo_sources()
 
@@ -36,7 +38,10 @@ RULE = ("histories: screens with 1-8 plates (1..14 rows quick, ..40 thorough; ev
         "wholly observed or wholly masked (an observed and a masked screen sharing a plate name must be refused, also when the "
         "plate's rows are interleaved with other plates), one status per plate across parts, or random; other control name / arity; "
         "inputs snapshotted and compared.  Non-trivial history: >= 2 plates and a successful reveal that newly reveals a plate "
-        "while another plate stays hidden.  Non-mutation (aliasing) clause: every screen object is snapshotted before an "
+        "while another plate stays hidden.  Fixed corpus first: NaN/zero guards (plate with ONE NaN well, all-NaN plate, all-zero plate, alone and together with finite plates, "
+        "library and CLI; three requests through the CLI in another interpreter).  Hardening classes (class.*): 30% non-C / read-only layouts, "
+        "plate ids as list / np.int64 / ndarray / tuple, 10% plate names >= 25 chars, 8% with 11-13 plates named plate_<k>; every snapshot holds "
+        "all instance attributes found by introspection.  Non-mutation (aliasing) clause: every screen object is snapshotted before an "
         "operation and compared after it, every screen of the chain is compared again at the end of the history and (half of the "
         "histories) with the h5 copy saved when it was created; histories BRANCH: at 45% of the library reveals a second, different "
         "reveal request is first executed on the SAME screen object and judged on its own (observed-before plus that request only, "
@@ -69,6 +74,27 @@ SIG_COMBINE = "C12:combine-result"
 # ------------------------------------------------------------------------------------------------
 # small independent helpers (the oracles work on bit patterns and python lists, not on numpy)
 # ------------------------------------------------------------------------------------------------
+
+def observables(s):
+    """the named observables plus EVERY instance attribute found by introspection (vars()), the mask attribute apart: whatever a
+    step may not change is compared without relying on a hand-written list of fields"""
+    d = _observables(s)
+    a = attrs_snapshot(s)
+    a.pop("_observation_mask", None)
+    d["attributes_by_introspection"] = a
+    return d
+
+
+def conv_ids(ids, how):
+    """the same plate ids as another container / integer type"""
+    if how == "np.int64-list":
+        return [np.int64(i) for i in ids]
+    if how == "np.array":
+        return np.array(ids, dtype=np.int64)
+    if how == "tuple":
+        return tuple(ids)
+    return list(ids)
+
 
 def is_nan_bits(b):
     return (b >> 52) & 0x7FF == 0x7FF and (b & ((1 << 52) - 1)) != 0
@@ -247,6 +273,53 @@ def gen_hist_raw(rng, n_max, k_plates=None, mask_mode=None):
     return raw, kind
 
 
+def rename_plates(raw, f):
+    """injective renaming of the plate names (plate ids follow the sort order of the NEW names)"""
+    names = sorted(set(raw["pnames"]))
+    ren = {p: f(i, p) for i, p in enumerate(names)}
+    raw["pnames"] = [ren[p] for p in raw["pnames"]]
+    return raw
+
+
+def nan_corpus():
+    """fixed corpus for the NaN / zero guards: plate `a_finite` (finite values), `b_one_nan` (three wells, ONE NaN), `c_all_nan`
+    (every well NaN), `d_zero` (all 0.0 / -0.0), `e_finite`; rows of the plates interleaved.  Requests whose stored values contain
+    SOME NaN (a single NaN well; an all-NaN plate together with a finite plate) must be refused, by the library and by the CLI."""
+    pn = ["a_finite", "b_one_nan", "c_all_nan", "a_finite", "d_zero", "b_one_nan", "e_finite", "c_all_nan", "b_one_nan", "d_zero", "e_finite"]
+    nan = S.from_bits(NAN_BITS[0])
+    obs = [0.5, 0.25, nan, 0.75, 0.0, nan, 0.9, S.from_bits(NAN_BITS[2]), 0.1, -0.0, 0.3333333333333333]
+    n = len(pn)
+    raw = dict(ctrl="control", arity=2, tnames=[["a", "b"] if i % 2 else ["b", "control"] for i in range(n)],
+               tdoses=[[1.0, 2.5] if i % 3 else [0.1, 0.0] for i in range(n)], snames=["s%d" % (i % 3) for i in range(n)], pnames=pn,
+               obs=obs, mask=[False] * n, tmap=None, smap=None)
+    reqs = ["1", "2", "1,0", "2,0", "0,2,4", "1,2", "3", "3,1", "4,0,1", "0", "0,4", "3,0"]     # ids: a=0 b=1 c=2 d=3 e=4
+    out = []
+    for r in reqs:
+        for kind in "rc":
+            out.append({"kind": "hist", "raw": raw, "obs_bits": obs_bits_list(raw), "ops": [kind + r], "corpus": "nan-guard"})
+    # after a good reveal the NaN plates are still refused, a finite one still accepted
+    out.append({"kind": "hist", "raw": raw, "obs_bits": obs_bits_list(raw), "ops": ["r0", "s", "r4", "c1"], "corpus": "nan-guard"})
+    return out
+
+
+def cli_in_other_process(tmp, raw, ids, hashseed):
+    """reveal_plate.main() in ANOTHER interpreter (other PYTHONHASHSEED); returns ('ok', observables) or ('err', text)"""
+    import subprocess
+    from batchie.data import Screen
+    fin, fout = os.path.join(tmp, "xp_in.h5"), os.path.join(tmp, "xp_out.h5")
+    if os.path.exists(fout):
+        os.remove(fout)
+    S.build(raw).save_h5(fin)
+    code = ("import sys; sys.path.insert(0, %r); sys.argv = ['reveal_plate', '--screen', %r, '--output', %r, '--plate-id'] + %r; "
+            "from batchie.cli import reveal_plate; reveal_plate.main()" % (os.path.join(common.REPO, "src"), fin, fout, [str(i) for i in ids]))
+    p = subprocess.run([sys.executable, "-c", code], env=dict(os.environ, PYTHONHASHSEED=str(hashseed)), stdout=subprocess.PIPE,
+                       stderr=subprocess.PIPE, text=True, timeout=300)
+    if p.returncode != 0 or not os.path.exists(fout):
+        last = [l for l in p.stderr.strip().splitlines() if l.strip()]
+        return "err", (last[-1] if last else "exit %d" % p.returncode)
+    return "ok", observables(Screen.load_h5(fout))
+
+
 def choose_op(rng, snap):
     """next step, chosen from the current state so that reveals are mostly meaningful"""
     pids = sorted(set(snap["plate_ids"]))
@@ -415,8 +488,9 @@ def run_history(case, tmp, res, rng=None, n_steps=0, meta_p=0.5):
                 fn = None
         chain.append({"obj": obj, "snap": snap_, "tlen": tlen, "olen": olen, "file": fn})
 
+    ids_as = case.get("ids_as", "list")
     try:
-        cur = S.build(raw)
+        cur = build_layout(raw, case.get("layout", "c"))
     except Exception as e:
         res.fail("constructor raises on a valid screen", at(-1), "%s: %s" % (type(e).__name__, e), "a screen", signature=SIG_RAISES)
         return [S.err_tok(e)], info
@@ -463,7 +537,7 @@ def run_history(case, tmp, res, rng=None, n_steps=0, meta_p=0.5):
                 bids = parse_ids(branches[str(k)])
                 bexc = bnew = bafter = None
                 try:
-                    bnew = reveal_plates(cur, bids)
+                    bnew = reveal_plates(cur, conv_ids(bids, ids_as))
                     bafter = observables(bnew)
                 except Exception as e:
                     bexc = e
@@ -480,7 +554,7 @@ def run_history(case, tmp, res, rng=None, n_steps=0, meta_p=0.5):
             elif kind == "s":
                 new = save_load(cur, tmp)
             elif kind == "r":
-                new = reveal_plates(cur, parse_ids(op[1:]))
+                new = reveal_plates(cur, conv_ids(parse_ids(op[1:]), ids_as))
             elif kind == "c":
                 ids = parse_ids(op[1:])
                 # library path, stage by stage (what the model's s+r+s describes)
@@ -618,7 +692,7 @@ def run_history(case, tmp, res, rng=None, n_steps=0, meta_p=0.5):
         cl = dict(cend, late=list(late))
         lexc = lnew = lafter = None
         try:
-            lnew = reveal_plates(ent["obj"], lids)
+            lnew = reveal_plates(ent["obj"], conv_ids(lids, ids_as))
             lafter = observables(lnew)
         except Exception as e:
             lexc = e
@@ -967,6 +1041,8 @@ def run_setobs_case(case, res):
                  {"mask": after["observation_mask"]}, {"mask": exp_mask, "selection": sel, "mask_before": before["observation_mask"]},
                  signature=SIG_SETOBS)
     else:
+        before["attributes_by_introspection"].pop("_observations", None)
+        after["attributes_by_introspection"].pop("_observations", None)
         for f in before:
             if f not in ("observations", "observation_mask") and before[f] != after[f]:
                 res.fail("set_observed changes something other than observations and mask", case, {"field": f, "after": after[f]},
@@ -1001,6 +1077,12 @@ def one_history(ctx, res, tie, tmp, case, rng=None, n_steps=0, where="C12:hist")
         seg = dict(case)
         seg["ops"] = seg_ops
         tie.add(where, hist_line(seg), seg_trace, seg, split=True)
+    res.count("class.input-mutation")                    # every input snapshotted before / compared after every step + at the end
+    res.count("class.attribute-completeness")            # all instance attributes by introspection in every snapshot
+    if case.get("branches") or case.get("late"):
+        res.count("class.object-reuse")                  # several reveal calls with DIFFERENT ids on the same screen object
+    if any(op[0] in "rc" and parse_ids(op[1:]) in ([0], []) for op in case["ops"]):
+        res.count("class.falsy-boundaries")              # plate id 0 alone, empty request
     if any(op[0] == "c" for op in case["ops"]):
         res.count("history.with-cli-reveal")
     if info["nontrivial"]:
@@ -1019,11 +1101,62 @@ def run(ctx, res):
     tie = Tie(ctx, res)
     tmp = tempfile.mkdtemp(prefix="verif_c12_")
     try:
+        # ---- 0. fixed corpus: NaN / zero guards, library and CLI, and the CLI in another interpreter -----------
+        for case in nan_corpus():
+            trace, info = one_history(ctx, res, tie, tmp, case, where="C12:hist:nan-corpus")
+            res.count("corpus.nan-guard")
+            res.count("corpus.nan-guard.%s" % ("refused" if trace[-1].startswith("err:") else "revealed"))
+        craw = nan_corpus()[0]["raw"]
+        craw = dict(craw, obs=[S.from_bits(b) for b in obs_bits_list(craw)])
+        for ids, must in (([0, 4], "ok"), ([1, 0], "err"), ([2, 4], "err")):
+            try:
+                st, val = cli_in_other_process(tmp, craw, ids, 1 + rng.randrange(4000000000))
+            except Exception as e:
+                res.notes.append("cross-process CLI not run: %s" % e)
+                break
+            res.count("class.cross-process")
+            res.evaluations += 1
+            xcase = {"kind": "hist", "raw": nan_corpus()[0]["raw"], "obs_bits": obs_bits_list(craw), "ops": ["c" + ids_tok(ids)], "corpus": "cross-process"}
+            if st != must:
+                res.fail("reveal_plate.main() in another interpreter %s" % ("reveals plates whose stored values contain NaN" if must == "err"
+                                                                            else "fails on good plates"), xcase, val if st == "err" else "a saved screen",
+                         "a ValueError" if must == "err" else "the revealed screen", signature=SIG_ACCEPT_NAN if must == "err" else SIG_CLI)
+            elif st == "ok":
+                from batchie.retrospective import reveal_plates as _rp
+                want = observables(_rp(S.build(craw), ids))
+                d = first_diff(want, val)
+                if d is not None:
+                    res.fail("reveal_plate.main() in another interpreter process differs from reveal_plates here ('%s')" % d[0], xcase,
+                             {"field": d[0], "other_process": d[2]}, {"field": d[0], "this_process": d[1]}, signature=SIG_CLI)
         # ---- 1. random histories ----------------------------------------------------------------
         for t in range(n_hist):
             big = thorough and rng.random() < 0.2
-            raw, kind = gen_hist_raw(rng, rng.randint(1, 40 if big else 14))
-            case = {"kind": "hist", "raw": raw, "obs_bits": obs_bits_list(raw), "ops": []}
+            z = rng.random()
+            if z < 0.08:
+                # >= 11 plates with numeric suffixes: two-digit plate ids, `plate_10` sorts before `plate_2`
+                raw, kind = gen_hist_raw(rng, rng.randint(12, 20), k_plates=rng.randint(11, 13))
+                raw = rename_plates(raw, lambda i, p: "plate_%d" % ((i * 7) % 13))
+                kind += "+many-plates"
+            else:
+                raw, kind = gen_hist_raw(rng, rng.randint(1, 40 if big else 14))
+                if z < 0.18:
+                    # plate names of >= 25 characters of unequal length
+                    raw = rename_plates(raw, lambda i, p: p + "_" + "0123456789abcdef" * (1 + i % 3) + "0123456789"[:i % 10])
+                    kind += "+long-plate-names"
+            case = {"kind": "hist", "raw": raw, "obs_bits": obs_bits_list(raw), "ops": [],
+                    "layout": rng.choice(LAYOUTS) if rng.random() < 0.3 else "c",
+                    "ids_as": rng.choice(["list", "list", "np.int64-list", "np.array", "tuple"])}
+            if case["layout"] != "c" or case["ids_as"] != "list" or "long-plate" in kind:
+                res.count("class.memory-layout-dtype")
+            if "many-plates" in kind:
+                res.count("class.size-boundary.ge-11-plates")
+            if "superset" in kind:
+                res.count("class.non-default-ids")
+            pn_ = raw["pnames"]
+            if any(pn_[i] != pn_[i - 1] and pn_[i] in pn_[:i - 1] for i in range(2, len(pn_))):
+                res.count("class.row-orderings")                   # rows of a plate interleaved with other plates
+            if len(pn_) <= 1 or len(set(pn_)) == 1:
+                res.count("class.falsy-boundaries")                # n = 1, k = 1 plate
             n_steps = rng.randint(1, 20 if (thorough and rng.random() < 0.2) else 8)
             res.count("screen." + kind)
             res.count("mask.%s" % ("none" if raw["mask"] is None else "all-hidden" if not any(raw["mask"]) else "some-observed"))
